@@ -133,7 +133,10 @@ Proof. reflexivity. Qed.
    every answer a validator can give is an input - an error with or without results,
    fewer or more results than certificates, nil entries, every method annotation and
    server result - as are the value of the signing time and the verifier without any
-   validator. NO theorem below assumes anything about the validator's answer unless the
+   validator. Theorems that carry [owner x = OwnerNotation] are about the validation as notation
+   performs it itself (no verification plugin named, or one that does not advertise the revocation
+   capability); the routing is the last part of this file.
+   NO theorem below assumes anything about the validator's answer unless the
    assumption is the case distinction the theorem is about ([complete x = true]: exactly one
    non-nil result per certificate, which the code checks itself since fix d78db00).
    [model] is a projection of [xmodel]: C05_model_is_projection.
@@ -141,65 +144,65 @@ Proof. reflexivity. Qed.
 
 (* passes if and only if a validator exists, it returned no error, exactly one result per
    certificate, each of them present and OK or non-revokable. Total. *)
-Theorem C05_full_pass_iff : forall x, x_action x <> Skip ->
+Theorem C05_full_pass_iff : forall x, owner x = OwnerNotation -> x_action x <> Skip ->
   (xo_result (xmodel x) = Some Pass <->
    x_val x <> 4%N /\ x_err x = false /\
    List.length (x_results x) = List.length (x_chain x) /\
    Forall (fun o => exists c, o = Some c /\ (cr_result c = ROK \/ cr_result c = RNonRevokable)) (x_results x)).
-Proof. exact xpass_iff. Qed.
+Proof. intros x Ho. rewrite (xmodel_notation x Ho). exact (xpass_iff x). Qed.
 Print Assumptions C05_full_pass_iff.
 
 (* the clause as worded, with no hypothesis on the validator's answer: passes only if EVERY
    CERTIFICATE OF THE CHAIN was reported, and reported OK or non-revokable *)
-Theorem C05_full_pass_only_if : forall x, x_action x <> Skip ->
+Theorem C05_full_pass_only_if : forall x, owner x = OwnerNotation -> x_action x <> Skip ->
   xo_result (xmodel x) = Some Pass ->
   forall k s, nth_error (x_chain x) k = Some s ->
     exists c, nth_error (x_results x) k = Some (Some c) /\ (cr_result c = ROK \/ cr_result c = RNonRevokable).
-Proof. exact xpass_only_if. Qed.
+Proof. intros x Ho. rewrite (xmodel_notation x Ho). exact (xpass_only_if x). Qed.
 Print Assumptions C05_full_pass_only_if.
 
 (* the converse direction, with everything that must also hold: accepted, no panic *)
-Theorem C05_full_pass_if : forall x, x_action x <> Skip -> x_val x <> 4%N -> x_err x = false ->
+Theorem C05_full_pass_if : forall x, owner x = OwnerNotation -> x_action x <> Skip -> x_val x <> 4%N -> x_err x = false ->
   List.length (x_results x) = List.length (x_chain x) ->
   Forall (fun o => exists c, o = Some c /\ (cr_result c = ROK \/ cr_result c = RNonRevokable)) (x_results x) ->
   xo_result (xmodel x) = Some Pass /\ xo_rejected (xmodel x) = false /\ xo_panic (xmodel x) = false.
-Proof. exact xpass_if. Qed.
+Proof. intros x Ho. rewrite (xmodel_notation x Ho). exact (xpass_if x). Qed.
 Print Assumptions C05_full_pass_if.
 
 (* an answer without error that is NOT exactly one non-nil result per certificate (fewer, more,
    none at all, a nil entry) fails the validation as inconclusive: checkRevocationResults *)
-Theorem C05_full_incomplete_answer : forall x, x_action x <> Skip -> x_err x = false ->
+Theorem C05_full_incomplete_answer : forall x, owner x = OwnerNotation -> x_action x <> Skip -> x_err x = false ->
   (List.length (x_results x) <> List.length (x_chain x) \/ In None (x_results x)) ->
   xo_result (xmodel x) = Some Inconclusive /\ xo_panic (xmodel x) = false /\
   xo_rejected (xmodel x) = match x_action x with Enforce => true | _ => false end.
-Proof. exact xincomplete_answer. Qed.
+Proof. intros x Ho. rewrite (xmodel_notation x Ho). exact (xincomplete_answer x). Qed.
 Print Assumptions C05_full_incomplete_answer.
 
 Theorem C05_never_panics : forall x, xo_panic (xmodel x) = false.
-Proof. exact xnever_panics. Qed.
+Proof. exact xnever_panics_all. Qed.
 Print Assumptions C05_never_panics.
 
 (* any revoked result in a complete answer => fails as revoked and names exactly the LEAF-MOST
    revoked certificate, whatever the other results are *)
-Theorem C05_full_revoked : forall x, x_action x <> Skip -> x_val x <> 4%N -> x_err x = false ->
+Theorem C05_full_revoked : forall x, owner x = OwnerNotation -> x_action x <> Skip -> x_val x <> 4%N -> x_err x = false ->
   complete x = true -> In RRevoked (xresults x) ->
   exists k s, nth_error (xresults x) k = Some RRevoked /\
               (forall j, j < k -> nth_error (xresults x) j <> Some RRevoked) /\
               nth_error (x_chain x) k = Some s /\
               xo_result (xmodel x) = Some (Revoked s).
-Proof. exact xrevoked. Qed.
+Proof. intros x Ho. rewrite (xmodel_notation x Ho). exact (xrevoked x). Qed.
 Print Assumptions C05_full_revoked.
 
 (* no revoked result but some result that is not OK / non-revokable (Unknown or any other value)
    => fails as unknown and names exactly the leaf-most such certificate *)
-Theorem C05_full_unknown : forall x, x_action x <> Skip -> x_val x <> 4%N -> x_err x = false ->
+Theorem C05_full_unknown : forall x, owner x = OwnerNotation -> x_action x <> Skip -> x_val x <> 4%N -> x_err x = false ->
   complete x = true ->
   ~ Forall (fun r => r = ROK \/ r = RNonRevokable) (xresults x) -> ~ In RRevoked (xresults x) ->
   exists k r s, nth_error (xresults x) k = Some r /\ is_ok r = false /\ r <> RRevoked /\
                 (forall j r', j < k -> nth_error (xresults x) j = Some r' -> is_ok r' = true) /\
                 nth_error (x_chain x) k = Some s /\
                 xo_result (xmodel x) = Some (Unknown s).
-Proof. exact xunknown. Qed.
+Proof. intros x Ho. rewrite (xmodel_notation x Ho). exact (xunknown x). Qed.
 Print Assumptions C05_full_unknown.
 
 (* what [complete] and [xresults] mean, so that the two theorems above can be read without the
@@ -215,23 +218,23 @@ Proof. exact complete_meaning. Qed.
 Print Assumptions C05_complete_meaning.
 
 (* an error from the validator fails the validation as inconclusive WHATEVER results come with it *)
-Theorem C05_full_validator_error : forall x, x_action x <> Skip -> x_err x = true ->
+Theorem C05_full_validator_error : forall x, owner x = OwnerNotation -> x_action x <> Skip -> x_err x = true ->
   xo_result (xmodel x) = Some Inconclusive /\ xo_panic (xmodel x) = false /\
   xo_rejected (xmodel x) = match x_action x with Enforce => true | _ => false end.
-Proof. exact xvalidator_error. Qed.
+Proof. intros x Ho. rewrite (xmodel_notation x Ho). exact (xvalidator_error x). Qed.
 Print Assumptions C05_full_validator_error.
 
 Theorem C05_full_error_ignores_results : forall x rs', x_err x = true ->
-  xmodel x = xmodel (mk_xinput (x_action x) (x_sa x) (x_val x) (x_stime x) (x_chain x) true rs').
-Proof. exact xerror_ignores_results. Qed.
+  xmodel x = xmodel (mk_xinput_p (x_action x) (x_sa x) (x_val x) (x_stime x) (x_chain x) true rs' (x_plugin x)).
+Proof. exact xerror_ignores_results_all. Qed.
 Print Assumptions C05_full_error_ignores_results.
 
 (* mandatory presence: a verifier without any validator fails the validation, consulting nothing;
    and no constructor produces such a verifier *)
-Theorem C05_full_no_validator : forall x, x_action x <> Skip -> x_val x = 4%N ->
+Theorem C05_full_no_validator : forall x, owner x = OwnerNotation -> x_action x <> Skip -> x_val x = 4%N ->
   xo_calls (xmodel x) = [] /\ xo_result (xmodel x) = Some Inconclusive /\
   xo_rejected (xmodel x) = match x_action x with Enforce => true | _ => false end.
-Proof. exact xno_validator. Qed.
+Proof. intros x Ho. rewrite (xmodel_notation x Ho). exact (xno_validator x). Qed.
 Print Assumptions C05_full_no_validator.
 
 Theorem C05_constructor_installs_validator : forall supplied_validator supplied_client,
@@ -242,55 +245,55 @@ Print Assumptions C05_constructor_installs_validator.
 (* exactly one consultation, through the interface setRevocation selected, with the complete
    chain and with the signing time of the signed attributes under signingAuthority and the zero
    time otherwise - independently of what the validator then answers *)
-Theorem C05_full_arguments : forall x, x_action x <> Skip -> (x_val x = 1 \/ x_val x = 2 \/ x_val x = 3)%N ->
+Theorem C05_full_arguments : forall x, owner x = OwnerNotation -> x_action x <> Skip -> (x_val x = 1 \/ x_val x = 2 \/ x_val x = 3)%N ->
   xo_calls (xmodel x) =
     [mk_xcall (if (x_val x =? 2)%N then 2 else 1) (x_chain x) (if x_sa x then x_stime x else None)].
-Proof. exact xarguments. Qed.
+Proof. intros x Ho. rewrite (xmodel_notation x Ho). exact (xarguments x). Qed.
 Print Assumptions C05_full_arguments.
 
-Theorem C05_full_selection : forall a b x,
+Theorem C05_full_selection : forall a b x, owner x = OwnerNotation ->
   x_action x <> Skip -> x_val x = val_of_options a b -> (a || b = true) ->
   map (fun k => Some (xk_which k)) (xo_calls (xmodel x)) = [consulted (set_revocation a b)].
-Proof. exact selection_matches_xmodel. Qed.
+Proof. intros a b x Ho. rewrite (xmodel_notation x Ho). exact (selection_matches_xmodel a b x). Qed.
 Print Assumptions C05_full_selection.
 
 (* skipped revocation: nothing consulted, no result entry, no rejection, whatever the validator would say *)
-Theorem C05_full_skip : forall x, x_action x = Skip -> xmodel x = mk_xobs [] None false false.
-Proof. exact xmodel_skip. Qed.
+Theorem C05_full_skip : forall x, owner x = OwnerNotation -> x_action x = Skip -> xmodel x = mk_xobs [] None false false.
+Proof. intros x Ho. rewrite (xmodel_notation x Ho). exact (xmodel_skip x). Qed.
 Print Assumptions C05_full_skip.
 
 (* fail closed at the level of Verify: under enforce a signature gets past the revocation step
    (no error, no panic) exactly when the revocation validation passed *)
 Theorem C05_full_accept_iff : forall x, x_action x = Enforce ->
   (xo_rejected (xmodel x) = false /\ xo_panic (xmodel x) = false <-> xo_result (xmodel x) = Some Pass).
-Proof. exact xaccept_iff. Qed.
+Proof. exact xaccept_iff_all. Qed.
 Print Assumptions C05_full_accept_iff.
 
-Theorem C05_full_rejected_iff : forall x,
+Theorem C05_full_rejected_iff : forall x, owner x = OwnerNotation ->
   xo_rejected (xmodel x) = true <->
   x_action x = Enforce /\ exists c, xo_result (xmodel x) = Some c /\ c <> Pass.
-Proof. exact xrejected_iff. Qed.
+Proof. intros x Ho. rewrite (xmodel_notation x Ho). exact (xrejected_iff x). Qed.
 Print Assumptions C05_full_rejected_iff.
 
-Theorem C05_full_log_reports : forall x, x_action x = Log ->
+Theorem C05_full_log_reports : forall x, owner x = OwnerNotation -> x_action x = Log ->
   xo_rejected (xmodel x) = false /\ exists c, xo_result (xmodel x) = Some c.
-Proof. exact xlog_reports. Qed.
+Proof. intros x Ho. rewrite (xmodel_notation x Ho). exact (xlog_reports x). Qed.
 Print Assumptions C05_full_log_reports.
 
 (* the OCSP / CRL / fallback method annotations and the per-server results and errors never
    change anything: two inputs that differ only there have the same observation *)
 Theorem C05_independent_of_annotations : forall x y,
   x_action x = x_action y -> x_sa x = x_sa y -> x_val x = x_val y -> x_stime x = x_stime y ->
-  x_chain x = x_chain y -> x_err x = x_err y ->
+  x_chain x = x_chain y -> x_err x = x_err y -> x_plugin x = x_plugin y ->
   map (option_map cr_result) (x_results x) = map (option_map cr_result) (x_results y) ->
   xmodel x = xmodel y.
-Proof. exact xindependent. Qed.
+Proof. exact xindependent_all. Qed.
 Print Assumptions C05_independent_of_annotations.
 
 (* the oracle the harness evaluates on the real code's observations is met by the full model
    on EVERY input (no contract) *)
 Theorem C05_full_model_meets_oracle : forall x, xspec_ok x (xmodel x) = true.
-Proof. exact xmodel_spec_ok. Qed.
+Proof. exact xmodel_spec_ok_all. Qed.
 Print Assumptions C05_full_model_meets_oracle.
 
 (* [model] (first part) is the projection of [xmodel] that forgets annotations and the value of
@@ -299,7 +302,10 @@ Theorem C05_model_is_projection : forall i t err rs,
   (i_val i <= 3)%N -> vout_matches (i_vout i) err rs ->
   let x := mk_xinput (i_action i) (i_sa i) (i_val i) (Some t) (i_chain i) err rs in
   obs_of_x (xmodel x) = model i.
-Proof. exact xmodel_refines_model. Qed.
+Proof.
+  intros i t err rs Hv Hm x. unfold x. rewrite (xmodel_notation _ (owner_mk_xinput _ _ _ _ _ _ _)).
+  exact (xmodel_refines_model i t err rs Hv Hm).
+Qed.
 Print Assumptions C05_model_is_projection.
 
 (* ---------- the code before fix d78db00 (model [xmodel_v0]) ---------- *)
@@ -308,11 +314,11 @@ Print Assumptions C05_model_is_projection.
    under enforce although nothing was reported about a certificate of the chain; the fixed code
    rejects the same input *)
 Theorem C05_pass_only_if_v0_refuted :
-  exists x, x_action x = Enforce /\ x_err x = false /\ x_val x = 1%N /\
+  exists x, x_action x = Enforce /\ x_err x = false /\ x_val x = 1%N /\ x_plugin x = None /\
             xo_result (xmodel_v0 x) = Some Pass /\ xo_rejected (xmodel_v0 x) = false /\ xo_panic (xmodel_v0 x) = false /\
             (exists k s, nth_error (x_chain x) k = Some s /\ nth_error (x_results x) k = None) /\
             xo_result (xmodel x) = Some Inconclusive /\ xo_rejected (xmodel x) = true.
-Proof. exact xpass_only_if_v0_refuted. Qed.
+Proof. exact xpass_only_if_v0_refuted_all. Qed.
 Print Assumptions C05_pass_only_if_v0_refuted.
 
 (* (F2) more results than certificates, or a nil entry, made Verify panic *)
@@ -324,8 +330,8 @@ Proof. exact xv0_panic_iff. Qed.
 Print Assumptions C05_v0_panic_iff.
 
 (* the fix changed nothing for a validator that keeps the contract *)
-Theorem C05_fix_conservative : forall x, xwf x = true -> xmodel x = xmodel_v0 x.
-Proof. exact xfix_conservative. Qed.
+Theorem C05_fix_conservative : forall x, owner x = OwnerNotation -> xwf x = true -> xmodel x = xmodel_v0 x.
+Proof. intros x Ho. rewrite (xmodel_notation x Ho). exact (xfix_conservative x). Qed.
 Print Assumptions C05_fix_conservative.
 
 (* ---------- non-vacuity of the full statements ---------- *)
@@ -403,3 +409,80 @@ Example C05_example_incomplete :   (* the first model on a short vector: inconcl
   model (mk_input Enforce false 1 ["leaf"; "root"] (VRes [ROK])) =
   mk_obs [mk_call 1 ["leaf"; "root"] false] (Some Inconclusive) true.
 Proof. reflexivity. Qed.
+
+(* ====================================================================== *)
+(* WHO OWNS THE REVOCATION CHECK. A signature may name a verification plugin (critical extended
+   attribute io.cncf.notary.verificationPlugin); processSignature then routes the revocation
+   validation by the capabilities the installed plugin advertises ([x_plugin], [owner]):
+   notation performs it itself (the theorems above, which carry [owner x = OwnerNotation]) unless
+   the plugin advertises SIGNATURE_VERIFIER.REVOCATION_CHECK. The same rule is
+   VerifyCore.native_validations of C02's model (C02_Property: the native check runs iff the level
+   does not skip it and the capability list lacks the revocation capability). *)
+
+(* the three owners, in terms of the capability list of the plugin's metadata *)
+Theorem C05_full_owner_meaning : forall x,
+  (owner x = OwnerNotation <->
+     x_plugin x = None \/ exists p, x_plugin x = Some p /\ In PcapTI (xp_caps p) /\ ~ In PcapRev (xp_caps p)) /\
+  (owner x = OwnerPlugin <-> exists p, x_plugin x = Some p /\ In PcapRev (xp_caps p)) /\
+  (owner x = OwnerNobody <-> exists p, x_plugin x = Some p /\ forall c, In c (xp_caps p) -> c = PcapOther).
+Proof. exact owner_meaning. Qed.
+Print Assumptions C05_full_owner_meaning.
+
+Theorem C05_owner_plugin_iff : forall x, owner x = OwnerPlugin <-> plugin_owns_revocation x = true.
+Proof. exact owner_plugin_owns. Qed.
+Print Assumptions C05_owner_plugin_iff.
+
+(* "when revocation is not skipped" + no plugin owns it: notation's own check IS performed - the
+   validator is consulted - and in no other situation *)
+Theorem C05_full_performed_iff : forall x, (x_val x = 1 \/ x_val x = 2 \/ x_val x = 3)%N ->
+  (xo_calls (xmodel x) <> [] <-> x_action x <> Skip /\ owner x = OwnerNotation).
+Proof. exact xperformed_iff. Qed.
+Print Assumptions C05_full_performed_iff.
+
+(* a plugin that advertises only other capabilities (e.g. trusted identity) changes nothing about
+   the revocation validation: same consultation, same result, same rejection *)
+Theorem C05_full_plugin_irrelevant : forall x, owner x = OwnerNotation ->
+  xmodel x = xmodel (mk_xinput (x_action x) (x_sa x) (x_val x) (x_stime x) (x_chain x) (x_err x) (x_results x)).
+Proof. exact xplugin_irrelevant. Qed.
+Print Assumptions C05_full_plugin_irrelevant.
+
+(* a plugin that advertises the revocation capability owns the check: the validator is not
+   consulted and the plugin's verdict is the revocation result (none at all when the level skips) *)
+Theorem C05_full_plugin_owns : forall x, owner x = OwnerPlugin ->
+  xo_calls (xmodel x) = [] /\ xo_panic (xmodel x) = false /\
+  (x_action x = Skip -> xo_result (xmodel x) = None /\ xo_rejected (xmodel x) = false) /\
+  (x_action x <> Skip ->
+     xo_result (xmodel x) = Some (plugin_verdict x) /\
+     (xo_result (xmodel x) = Some Pass <-> exists p, x_plugin x = Some p /\ xp_rev_ok p = true) /\
+     (xo_rejected (xmodel x) = true <-> x_action x = Enforce /\ exists p, x_plugin x = Some p /\ xp_rev_ok p = false)).
+Proof. exact xplugin_owns. Qed.
+Print Assumptions C05_full_plugin_owns.
+
+(* a named plugin without any verification capability: the whole verification is rejected, whatever the level *)
+Theorem C05_full_unusable_plugin : forall x, owner x = OwnerNobody -> xmodel x = mk_xobs [] None true false.
+Proof. exact xnobody. Qed.
+Print Assumptions C05_full_unusable_plugin.
+
+(* non-vacuity; the first one is the regression a seeded mutant introduced (revocation taken for
+   plugin-owned because the plugin verifies trusted identities): revoked leaf, enforce, TI-only plugin *)
+Example C05_full_example_ti_plugin :
+  let x := mk_xinput_p Enforce false 1 (Some 1700000000%Z) ["leaf"; "root"] false [cr RRevoked; cr ROK]
+             (Some (mk_xplugin [PcapOther; PcapTI] true)) in
+  owner x = OwnerNotation /\ plugin_owns_revocation x = false /\
+  xmodel x = mk_xobs [mk_xcall 1 ["leaf"; "root"] None] (Some (Revoked "leaf")) true false.
+Proof. repeat split. Qed.
+
+Example C05_full_example_rev_plugin :   (* the plugin owns the check: a revoked answer of the validator is never asked for *)
+  let x b a := mk_xinput_p a false 1 (Some 1700000000%Z) ["leaf"; "root"] false [cr RRevoked; cr ROK]
+                 (Some (mk_xplugin [PcapRev; PcapTI] b)) in
+  owner (x true Enforce) = OwnerPlugin /\
+  xmodel (x true Enforce) = mk_xobs [] (Some Pass) false false /\
+  xmodel (x false Enforce) = mk_xobs [] (Some PluginRejected) true false /\
+  xmodel (x false Log) = mk_xobs [] (Some PluginRejected) false false /\
+  xmodel (x false Skip) = mk_xobs [] None false false.
+Proof. repeat split. Qed.
+
+Example C05_full_example_unusable_plugin :
+  let x := mk_xinput_p Skip false 1 (Some 1700000000%Z) ["leaf"] false [cr ROK] (Some (mk_xplugin [PcapOther] true)) in
+  owner x = OwnerNobody /\ xmodel x = mk_xobs [] None true false.
+Proof. repeat split. Qed.
